@@ -291,6 +291,22 @@ def fam_sink(rng, n, prefix):
         cfg = rand_cfg(rng, dims=(640, 480))
         out.append(mux_history(rng, "%s%d" % (prefix, i), cfg=cfg, nv=rng.range(0, 4), rejects=0, fin=0,
                                post=2, sink=evs))
+    # samples larger than typical I/O chunk sizes (64 KiB, 1 MiB/8) under trickling / interrupting sinks
+    for j in range(max(1, n // 25)):
+        codec = rng.choice(["h264", "h265"])
+        size = rng.choice([65535, 65536, 65537, 70000, 131073])
+        c = Case("%sbig%d" % (prefix, j), "mux")
+        c.b("video", codec, "280", "1e0")
+        if rng.chance(1, 2):
+            c.b("audio", "aac-lc", "bb80", "2")
+        c.b("fast", rng.below(2))
+        c.raw("sink " + " ".join(rng.choice(["a1000", "a10000", "i", "a7", "a20000"]) for _ in range(rng.range(8, 40))))
+        key = video_key(rng, codec)
+        nal = (b"\x00\x00\x01\x65" if codec == "h264" else b"\x00\x00\x01\x26\x01") + bytes([0x55]) * size
+        c.o("wv", fb(0.0), hx(key + nal), 1)
+        c.o("wv", fb(0.04), hx(video_delta(rng, codec)), 0)
+        c.o("fin", 0)
+        out.append(c)
     return out
 
 
@@ -439,7 +455,13 @@ def fam_fn_codec(rng, n, prefix):
                                bytes([0x32, 0x01, 0x80 | rng.below(128)]) + av1_key(rng),  # show_existing_frame first
                                bytes([0x1A, 0x01, 0x80]),                                # frame header OBU: show_existing_frame
                                bytes([0x32, 0x00]) + av1_key(rng),                       # empty frame OBU first
-                               bytes([0x0A, 0x0B]) + bytes([0xFF] * 11)])
+                               bytes([0x0A, 0x0B]) + bytes([0xFF] * 11),
+                               # OBU size fields near 2^64 (9- and 10-byte LEB128) and near 2^32 / 2^56
+                               bytes([rng.choice([0x0A, 0x32, 0x12])]) + bytes([rng.choice([0xF5, 0xFA, 0xFF])]) + bytes([0xFF] * 8) + bytes([0x01]) + rng.bytes(3),
+                               bytes([0x0A]) + bytes([0xFF] * 8) + bytes([0x7F]) + rng.bytes(2),
+                               bytes([0x0A]) + bytes([0xFF] * 7) + bytes([0x7F]) + rng.bytes(2),
+                               bytes([0x0A]) + bytes([0xFF] * 4) + bytes([0x0F]) + rng.bytes(2),
+                               bytes([0xFF] * 9) + bytes([0x01]), bytes([0x80] * 9) + bytes([0x01]), bytes([0xFF] * 10)])
             d = mutate(rng, base) if rng.chance(1, 2) else base
             name = rng.choice(["read_leb128", "parse_obu_header", "obu_iter", "extract_av1_config", "is_av1_keyframe"])
             out.append(fn_case("%s%d" % (prefix, i), name, hx(d)))
@@ -947,6 +969,28 @@ def fam_audio_vs_first_video(rng, n, prefix):
         for k in range(rng.range(2, 6)):
             t = max(t, rng.choice([p0 * 0.3, p0 * 0.6, p0 * 0.9, p0, p0 * 1.1, p0 + 0.5]))
             c.o("wa", fb(t), hx(audio_frame(rng, cfg["audio"])))
+        c.o("fin", 0)
+        out.append(c)
+    return out
+
+
+# ---------- A/V streams whose timestamps cross 2^32 ticks (C15/C01/C03/C16) ----------
+def fam_cross_2p32(rng, n, prefix):
+    out = []
+    for i in range(n):
+        cfg = rand_cfg(rng, audio=rng.choice(["aac-lc", "opus"]), dims=(640, 480), meta=0)
+        codec = cfg["codec"]
+        c = Case("%s%d" % (prefix, i), "mux")
+        emit_cfg(c, cfg, rng)
+        start = 2**32 - rng.choice([1, 3000, 6000, 9000, 15000])
+        vstep, astep = rng.choice([3000, 3003]), rng.choice([1920, 1800])
+        ops = [(start + k * vstep, 0, k) for k in range(rng.range(3, 8))] + [(start + k * astep, 1, k) for k in range(rng.range(2, 10))]
+        ops.sort()
+        for t, kind, k in ops:
+            if kind == 0:
+                c.o("wv", fb(t / 90000.0), hx(video_key(rng, codec) if k == 0 else video_delta(rng, codec)), 1 if k == 0 else 0)
+            else:
+                c.o("wa", fb(t / 90000.0), hx(audio_frame(rng, cfg["audio"])))
         c.o("fin", 0)
         out.append(c)
     return out
